@@ -21,8 +21,8 @@ META = {
     "text": "Bungee.tla defines Respond(state, request): the exact set of responses (bytes and the server connection "
             "they are written to), forwarded payloads per target server, connects, kicks and chat messages for all "
             "18 BungeeCord sub-channels, transcribed from Velocity's BungeeCordMessageResponder on the byte-level "
-            "DataOutput operators of Wire.tla. TLC enumerates 32 proxy states (1-3 players over 2-3 servers, legacy "
-            "and modern channel name) x sub-channels x argument classes (self, other, unknown, empty, ALL, ONLINE, "
+            "DataOutput operators of Wire.tla. TLC enumerates 48 proxy states (1-3 players over 2-3 servers, every player "
+            "on either side of the 1.13 channel rename) x sub-channels x argument classes (self, other, unknown, empty, ALL, ONLINE, "
             "server names, truncated input), checks the statement's clauses on Respond and exports the requests; the "
             "real responder is fed each one over recording fakes and, for the adapter, on the live proxy with three "
             "players on two backends; TLC compares everything that was observed with Respond. The quantifier is "
@@ -65,6 +65,8 @@ def key_of(rec):
         srv = b2s(p["server"])
         cls = "other-player" + ("@same-server" if srv == b2s(st["players"][0]["server"]) else
                                 "@no-server" if not srv else "@other-server")
+        if p.get("modern") != st["players"][0].get("modern"):
+            cls += ",other-side-of-1.13"
     elif a in servers:
         cls = "current-server" if a == b2s(st["players"][0]["server"]) else "other-server"
     elif a == "":
@@ -73,7 +75,8 @@ def key_of(rec):
         cls = "unknown"
     if "outs" in rec:
         sym = "panic" if rec.get("panicked") else "outs=" + ("+".join(sorted(
-            "%s(%s)" % (o["kind"], b2s(o["who"]) or b2s(o["where"])) for o in rec["outs"])) or "none")
+            "%s(%s%s)" % (o["kind"], b2s(o["who"]) or b2s(o["where"]), ("@" + o["chan"]) if o["kind"] == "resp" else "")
+            for o in rec["outs"])) or "none")
     else:
         sym = "lost" if rec.get("lost") else "backends=%s,clients=%s" % (
             "+".join(sorted("%s@%s" % (b2s(o["who"]), b2s(o["where"])) for o in rec["srv"])) or "none",
